@@ -44,6 +44,35 @@ Definition bytes_since (r : reader) (pos : Z) : res bytes := go_slice (r_body r)
 Definition remaining_bytes (r : reader) : res bytes := go_slice (r_body r) (r_pos r) (zlen (r_body r)).
 Definition reader_wf (r : reader) : Prop := 0 <= r_pos r <= zlen (r_body r).
 
+(** ** the Request implementations a backend frame can reach (proxycore/requests.go Request;
+    proxy/request.go request, proxycore/clientconn.go internalRequest and prepareRequest).
+
+    ClientConn.Receive looks up the request registered under the frame's stream and -- when the
+    frame is ERROR UNPREPARED for a statement in the prepared cache -- sends a prepareRequest
+    whose [origRequest] is that request, WHATEVER kind of request it is; when that PREPARE is
+    answered, [origRequest.Execute] is called.  A backend chooses which stream it answers with
+    UNPREPARED, so every implementation's Execute is reachable with untrusted input.
+    [before = true] is the code before fixes 90a69b1 and 864854b: Execute of the two internal
+    kinds was [panic("not implemented")]. *)
+Inductive reqkind :=
+| KClient                    (* proxy.request: re-executes or moves on *)
+| KInternal                  (* internalRequest: heartbeat, control-connection query, handshake message *)
+| KPrepare (orig : reqkind). (* prepareRequest: the proxy's own re-PREPARE *)
+
+Inductive exec_effect := Reexecuted | FailedWithError.
+
+Fixpoint execute_req (before : bool) (k : reqkind) : res exec_effect :=
+  match k with
+  | KClient => Ok Reexecuted
+  | KInternal => if before then Panic (str "not implemented") else Ok FailedWithError
+  | KPrepare orig => if before then Panic (str "not implemented") else execute_req before orig   (* origRequest.Execute(true) *)
+  end.
+
+(** a backend answers the request registered as [k] with UNPREPARED for a cached statement, then
+    answers the PREPARE the proxy sends: prepareRequest.OnResult calls origRequest.Execute *)
+Definition unprepared_then_prepare_answered (before : bool) (k : reqkind) : res exec_effect :=
+  execute_req before k.
+
 (** ** correspondence entry: the harness reports (process alive, persistent canary served, fresh
     canary served, offending connection answered or closed); all four must be true *)
 Definition run_c17 (input : val) : val := L [I 1; I 1; I 1; I 1].
